@@ -248,6 +248,15 @@ DocumentedOrder == Completed => \A e \in exts, x \in 1..n :
      /\ (Seen(e, "depart", x) /\ Seen("main", "depart", x)) =>
             IF When(e) \in {"BEFORE", "INNER"} THEN Pos(e, "depart", x) < Pos("main", "depart", x)
                                                ELSE Pos("main", "depart", x) < Pos(e, "depart", x)
+\* ... and of the extensions among themselves, also where the main visitor does not leave the node (SkipNode, SkipDeparture):
+\* entering BEFORE, OUTTER, (main), AFTER, INNER - leaving BEFORE, INNER, (main), AFTER, OUTTER; registration order within one timing
+RankV(e) == CASE When(e) = "BEFORE" -> 1 [] When(e) = "OUTTER" -> 2 [] When(e) = "AFTER" -> 3 [] When(e) = "INNER" -> 4
+RankD(e) == CASE When(e) = "BEFORE" -> 1 [] When(e) = "INNER" -> 2 [] When(e) = "AFTER" -> 3 [] When(e) = "OUTTER" -> 4
+RegPos(e) == CHOOSE i \in 1..Len(RegOrder) : RegOrder[i] = e
+Earlier(e1, e2, rank(_)) == rank(e1) < rank(e2) \/ (rank(e1) = rank(e2) /\ RegPos(e1) < RegPos(e2))
+ExtOrder == Completed => \A e1, e2 \in exts, x \in 1..(n + 1) : e1 # e2 =>
+     /\ (Seen(e1, "visit", x) /\ Seen(e2, "visit", x) /\ Earlier(e1, e2, RankV)) => Pos(e1, "visit", x) < Pos(e2, "visit", x)
+     /\ (Seen(e1, "depart", x) /\ Seen(e2, "depart", x) /\ Earlier(e1, e2, RankD)) => Pos(e1, "depart", x) < Pos(e2, "depart", x)
 \* who enters a node: everybody or nobody (extensions see what the main visitor sees)
 SameNodesForAll == Completed => \A e \in exts, x \in 1..n : Seen(e, "visit", x) <=> Seen("main", "visit", x)
 \* the documented meaning of the pruning exceptions: a node x is visited iff no ancestor pruned its
@@ -277,7 +286,7 @@ NestedContract == (nest.at # 0 /\ Completed) =>
                                        /\ \A j \in (Pos("main", nest.when, nest.at) + 1)..i : j \in mine       \* one contiguous block
 Contract == ErrorsSurface /\ (status = "failed" \/
             /\ EnteredAtMostOnce /\ NoEscape /\ ExtBalanced /\ MainBalanced /\ WalkNoDepart
-            /\ WellNested /\ DocumentedOrder /\ SameNodesForAll /\ PruningMeans /\ NestedContract)
+            /\ WellNested /\ DocumentedOrder /\ ExtOrder /\ SameNodesForAll /\ PruningMeans /\ NestedContract)
 
 \* ------------------------------------------------------------------ emission (spec -> code)
 Cfg == [cid |-> cid, n |-> n, parent |-> parent, prune |-> prune, mode |-> mode, hist |-> hist, nest |-> nest, edit |-> edit,
